@@ -26,6 +26,12 @@ fn vt_max_by_key0<'a>(v: &'a [(usize, MatchOp); 3]) -> (r: &'a (usize, MatchOp))
     ensures exists|k: int| 0 <= k < 3 && v[k] == *r && (forall|m: int| 0 <= m < 3 ==> v[m].0 <= r.0) && (forall|m: int| k < m < 3 ==> v[m].0 < r.0),
 { unimplemented!() }
 
+// std Iterator::min_by returns the FIRST minimum
+#[verifier::external_body]
+fn vt_min_by_key0<'a>(v: &'a [(usize, MatchOp); 3]) -> (r: &'a (usize, MatchOp))
+    ensures exists|k: int| 0 <= k < 3 && v[k] == *r && (forall|m: int| 0 <= m < 3 ==> v[m].0 >= r.0) && (forall|m: int| 0 <= m < k ==> v[m].0 > r.0),
+{ unimplemented!() }
+
 pub open spec fn max2(a: nat, b: nat) -> nat { if a >= b { a } else { b } }
 
 pub open spec fn lcs(mt: spec_fn(&str, &str) -> bool, xs: Seq<&str>, ys: Seq<&str>, i: nat, j: nat) -> nat
@@ -332,7 +338,7 @@ proof fn lemma_lcs_ext(mt1: spec_fn(&str, &str) -> bool, mt2: spec_fn(&str, &str
 }
 
 //@unit src/text.rs fn match_words
-//@rule R16(str_match_fn(ignore_case) ;; vt_f)
+//@rule R16(str_match_fn ;; vt_f)
 pub fn match_words(a: &str, b: &str, ignore_case: bool) -> (res: (Vec<(usize, usize)>, usize, usize))
     ensures
         match_ok(res.0@, a, b, ignore_case),
